@@ -147,6 +147,20 @@ func (en *Engine) canonical(st *State, fr *Frame, x *ssa.Call, name string, args
 			fr.env[x] = v
 			return name, args, true
 		}
+	case "time.Now":
+		// on a path that knows the injected clock is nil, the wall clock is what that clock reads: (*dsig.Clock)(nil).Now()
+		if clk := nilClockOnPath(st); clk != nil && len(args) == 0 {
+			return "(*github.com/russellhaering/goxmldsig.Clock).Now", []Val{clk}, false
+		}
+	case "(*github.com/russellhaering/goxmldsig.Clock).Now":
+		// dsig.NewRealClock().Now() under the same knowledge
+		if len(args) == 1 {
+			if cv, ok := args[0].(*CallV); ok && strings.HasSuffix(cv.Callee, "goxmldsig.NewRealClock") {
+				if clk := nilClockOnPath(st); clk != nil {
+					return name, []Val{clk}, false
+				}
+			}
+		}
 	case "bytes.NewBuffer":
 		// used as a reader of b: the same bytes come out
 		return "bytes.NewReader", args, false
@@ -645,4 +659,24 @@ func (en *Engine) trimRightLoop(st *State, fr *Frame, li *loopInfo, header, from
 	init := en.eval(st, fr, phi.Edges[idx])
 	val := mkCall("bytes.TrimRight", nil, []Val{init, strV(string(rune(cut.Int64())))}, "", 0, 1, phi.Type())
 	return phi, exit, val, true
+}
+
+// nilClockOnPath: the value `<param>.Clock` that the path knows to be nil, if any.
+func nilClockOnPath(st *State) Val {
+	for _, f := range st.facts {
+		b, ok := f.Cond.(*BinV)
+		if !ok || b.Op != token.EQL || !f.Pol || !isNilConst(b.Y) {
+			continue
+		}
+		l, ok := b.X.(*LoadV)
+		if !ok {
+			continue
+		}
+		if fa, ok := l.Addr.(*FieldAddrV); ok && fa.Name == "Clock" {
+			if _, isP := fa.X.(*ParamV); isP {
+				return l
+			}
+		}
+	}
+	return nil
 }
